@@ -114,6 +114,10 @@ def check_explicit(case, ctx: Ctx):
     rows = [list(r) for r in case["rows"]]
     weights, wkind = case["weights"], case["wkind"]
     bins = [build_axis(ax) for ax in case["axes"]]
+    incl_kwarg = case.get("incl_kwarg")
+    if incl_kwarg is not None:
+        # the right-edge declaration given to the facade (one flag, or one per axis) instead of through binning objects
+        bins = [np.array([p[0] for p in ax["pairs"]] + [ax["pairs"][-1][1]]) for ax in case["axes"]]
     arr = np.array(rows, dtype=float).reshape(len(rows), d)
     warr = None
     if weights is not None:
@@ -121,6 +125,9 @@ def check_explicit(case, ctx: Ctx):
     entry = case["entry"]
     ctx.label("entry_" + entry, f"d{d}", f"w_{wkind}")
     kwargs = {}
+    if incl_kwarg is not None:
+        kwargs["includes_right_edge"] = incl_kwarg
+        ctx.label("incl_by_keyword")
     if warr is not None:
         kwargs["weights"] = warr if case.get("wform", "array") == "array" or len(weights) == 0 else list(weights)
     if not case["dropna"]:
@@ -173,8 +180,8 @@ def check_explicit(case, ctx: Ctx):
         if ax["form"] != "fixed":
             got = model.pairs_of(h.bins[i])
             require(got == [tuple(map(float, p)) for p in ax["pairs"]], "bins_differ_from_spec", f"axis {i}: {got} vs {ax['pairs']}")
-            if ax["form"] in ("static", "numpy"):
-                require(bool(h.binnings[i].includes_right_edge) == ax["incl"], "incl_flag_lost", f"axis {i}")
+            if ax["form"] in ("static", "numpy") or incl_kwarg is not None:
+                require(bool(h.binnings[i].includes_right_edge) == ax["incl"], "incl_flag_lost", f"axis {i}: declared {h.binnings[i].includes_right_edge}, requested {ax['incl']}")
     expected_class = "Histogram2D" if d == 2 else "HistogramND"
     require(type(h).__name__ == expected_class, "class", type(h).__name__)
     axes_pairs, incl, m = compare(ctx, h, rows, weights, wkind, narrow_int=bool(case.get("wdtype")))
@@ -190,7 +197,9 @@ def check_explicit(case, ctx: Ctx):
     perm = case.get("perm")
     if perm and entry in ("h", "h_lists") and sorted(perm) == list(range(d)) and perm != list(range(d)):
         arr2 = arr[:, perm]
-        bins2 = [build_axis(case["axes"][j]) for j in perm]
+        bins2 = [bins[j] for j in perm] if incl_kwarg is not None else [build_axis(case["axes"][j]) for j in perm]
+        if isinstance(incl_kwarg, list):
+            kwargs["includes_right_edge"] = [incl_kwarg[j] for j in perm]
         h2 = ctx.call("permuted " + entry, build, arr2, bins2)
         want = np.transpose(h.frequencies, perm)
         require(np.array_equal(h2.frequencies, want), "axis_permutation", f"perm {perm}")
@@ -247,6 +256,31 @@ def explicit_cases(draw, tier="quick"):
         wdtype = draw(st.sampled_from(["int8", "uint8", "int16", "int32", "uint16"]))
         heavy = {"int8": [100, 120, 7, 0], "uint8": [200, 255, 16, 0], "int16": [30000, 200, 3, 0], "int32": [100000, 2 ** 30, 5, 0], "uint16": [60000, 300, 1, 0]}[wdtype]
         weights = [draw(st.sampled_from(heavy)) for _ in weights]
+    incl_kwarg = None
+    special = draw(st.integers(0, 5))
+    if special == 0 and all(not model.gaps([tuple(p) for p in ax["pairs"]]) for ax in axes) and n:
+        # explicit edges for every axis + the declaration as a keyword argument (a scalar or a per-axis list)
+        for ax in axes:
+            ax["form"] = "edges"
+        if draw(st.booleans()):
+            flag = draw(st.booleans())
+            incl_kwarg = flag
+            for ax in axes:
+                ax["incl"] = flag
+        else:
+            incl_kwarg = [draw(st.booleans()) for _ in axes]
+            for ax, f_ in zip(axes, incl_kwarg):
+                ax["incl"] = f_
+    elif special == 1 and d >= 2 and n:
+        # two axes with identical bins but different declarations
+        src = axes[0]
+        if src["form"] in ("static", "numpy") and not model.gaps([tuple(p) for p in src["pairs"]]):
+            axes[1] = {"form": draw(st.sampled_from(["static", "numpy"])) if src["form"] == "numpy" else "static", "pairs": [list(p) for p in src["pairs"]], "incl": not src["incl"]}
+    if special in (0, 1) and n:
+        # several rows on the last edges
+        for r_ in rows[: max(1, n // 2)]:
+            j_ = draw(st.integers(0, d - 1))
+            r_[j_] = axes[j_]["pairs"][-1][1]
     entries = {2: ["h", "h", "h_lists", "h2", "h2", "h2_lists"], 3: ["h", "h_lists", "h3", "h3_cols", "h3_cols", "h3_col_lists", "h3_col_series"], 4: ["h", "h_lists"]}[d]
     entry = draw(st.sampled_from(entries))
     if entry in ("h3_cols", "h3_col_lists", "h3_col_series") and n == 0:
@@ -256,7 +290,7 @@ def explicit_cases(draw, tier="quick"):
     perm = draw(st.permutations(list(range(d))))
     return {"axes": axes, "rows": rows, "wkind": wkind, "weights": weights, "entry": entry,
             "dropna": draw(st.sampled_from([True, True, True, False])), "perm": list(perm),
-            "wform": "array" if wdtype else draw(st.sampled_from(["array", "list"])), "wdtype": wdtype}
+            "wform": "array" if wdtype else draw(st.sampled_from(["array", "list"])), "wdtype": wdtype, "incl_kwarg": incl_kwarg}
 
 
 # ---------------------------------------------------------------------------------
